@@ -1,8 +1,11 @@
 package main
 
 import (
+	"fmt"
+	"math/rand"
 	"reflect"
 	"strings"
+	"sync"
 
 	"github.com/bluenviron/gomavlib/v3/pkg/dialect"
 	"github.com/bluenviron/gomavlib/v3/pkg/message"
@@ -14,6 +17,7 @@ func init() { gens["C17"] = genC17 }
 
 func genC17(o *hx.Out, tier string) {
 	r := hx.NewRand(17)
+	c17Concurrent(o, tier)
 	for _, nd := range hx.Shipped() {
 		drw := defineDialect(o, nd.Name, nd.D)
 		ids := map[uint32]bool{}
@@ -93,4 +97,58 @@ func genC17(o *hx.Out, tier string) {
 		}
 		o.Add(class, impl, "dinit", strings.Join(parts, " "))
 	}
+}
+
+// c17Concurrent: a node shares one dialect.ReadWriter between the readers of all its channels, so
+// ids are looked up from several goroutines at once; every lookup must still return the codec of
+// the message with that id (and nothing for an absent id), whatever the others look up meanwhile.
+func c17Concurrent(o *hx.Out, tier string) {
+	d := shipped("common")
+	drw := &dialect.ReadWriter{Dialect: d}
+	if err := drw.Initialize(); err != nil {
+		o.Add("concurrent lookups", "INIT-FAILED", "expect", "ok", "concurrent lookups")
+		return
+	}
+	want := map[uint32]*message.ReadWriter{}
+	var ids []uint32
+	for _, m := range d.Messages {
+		want[m.GetID()] = drw.GetMessage(m.GetID())
+		ids = append(ids, m.GetID())
+	}
+	ids = append(ids, 99999, 1<<24-1) // absent
+	rounds := 20000
+	if tier == "thorough" {
+		rounds = 400000
+	}
+	const workers = 8
+	wrong := make([]int, workers)
+	var wg sync.WaitGroup
+	for w := 0; w < workers; w++ {
+		wg.Add(1)
+		go func(w int) {
+			defer wg.Done()
+			rr := rand.New(rand.NewSource(int64(1700 + w)))
+			// each worker keeps to a few ids of its own most of the time, as a channel that carries a few message types does
+			mine := []uint32{ids[rr.Intn(len(ids))], ids[rr.Intn(len(ids))], ids[rr.Intn(len(ids))]}
+			for i := 0; i < rounds; i++ {
+				id := mine[i%3]
+				if i%17 == 0 {
+					id = ids[rr.Intn(len(ids))]
+				}
+				if drw.GetMessage(id) != want[id] {
+					wrong[w]++
+				}
+			}
+		}(w)
+	}
+	wg.Wait()
+	total := 0
+	for _, n := range wrong {
+		total += n
+	}
+	verdict := "ok"
+	if total != 0 {
+		verdict = fmt.Sprintf("WRONG-CODEC-RETURNED %d of %d concurrent lookups", total, workers*rounds)
+	}
+	o.Add("concurrent lookups", verdict, "expect", "ok", "concurrent lookups")
 }
